@@ -331,7 +331,7 @@ class World:
                     if y not in seen and y._status_ == 'marked_to_delete': seen.append(y); todo.append(y)
             return False
         found = 0
-        res = {'all_deleted': True, 'strict_family': True, 'all_in_cycle': True}
+        res = {'all_deleted': True, 'strict_family': True, 'all_in_cycle': True}    # all_in_cycle: every blocker is on a reference cycle with p OR cascades one-to-one to p
         for E2 in self.E:
             for attr in E2._attrs_with_columns_:
                 if not attr.reverse or attr.reverse.entity is not p.__class__: continue
@@ -350,7 +350,26 @@ class World:
                     if not deleted: res['all_deleted'] = False
                     # a live cascade child of p should have been queued before p by Entity._delete_, unless the rows form a cycle
                     if not (deleted and (stale or cyc or not attr.reverse.cascade_delete)): res['strict_family'] = False
-                    if not cyc: res['all_in_cycle'] = False
+                    # is p a one-to-one CASCADE TARGET of the blocker (the blocker's deletion cascades to p, so _delete_ queued p
+                    # first) - read from the schema and the database row(s) of that relationship
+                    target = False
+                    if deleted:
+                        for a2 in o2.__class__._attrs_:
+                            if a2.is_collection or not a2.reverse or a2.reverse.is_collection or not a2.cascade_delete: continue
+                            if a2.reverse.entity is not p.__class__ and not isinstance(p, a2.py_type): continue
+                            if a2.columns:
+                                c3 = sqlite3.Cursor(con)
+                                c3.execute('SELECT %s FROM "%s" WHERE %s' % (', '.join('"%s"' % c for c in a2.columns), E2._table_,
+                                           ' AND '.join('"%s" = ?' % c for c in E2._pk_columns_)), list(pk2))
+                                row = c3.fetchone()
+                                if row is not None and tuple(row) == rawpk(p): target = True
+                            elif a2.reverse.columns:
+                                c3 = sqlite3.Cursor(con)
+                                c3.execute('SELECT %s FROM "%s" WHERE %s' % (', '.join('"%s"' % c for c in a2.reverse.columns), p.__class__._table_,
+                                           ' AND '.join('"%s" = ?' % c for c in p.__class__._pk_columns_)), list(rawpk(p)))
+                                row = c3.fetchone()
+                                if row is not None and tuple(row) == pk2: target = True
+                    if not (cyc or target): res['all_in_cycle'] = False
         res['found'] = found
         if not found: res['all_deleted'] = res['strict_family'] = res['all_in_cycle'] = False
         return res
@@ -650,6 +669,13 @@ class Run:
             self.byproducts.append(('reference to a marked_to_delete object accepted', self.hist))
         if not cyclic and hyp and err is not None:
             det = {'error': str(err)[:300], 'statements_so_far': trace}
+            if not self.strict and isinstance(err, core.OptimisticCheckError) and trace and trace[-1][0] == 'update' \
+                    and any(wr[0] == 'delete' for wr in trace[:-1]):
+                # the UPDATE that failed its optimistic check: does it re-write references to rows that this flush deletes
+                # (the ON DELETE SET NULL / CASCADE action of an earlier DELETE of this flush changed the row first)?
+                u = objs[trace[-1][1]]
+                olds = [u._dbvals_.get(a) for a in u._attrs_with_columns_ if a.reverse]
+                det['preempted_by_on_delete'] = any(isinstance(v, core.Entity) and v._status_ in ('marked_to_delete', 'deleted') for v in olds)
             if trace and trace[-1][0] == 'delete' and 'FOREIGN KEY' in str(err):
                 try: det['refused_delete'] = w.blocking_rows_are_deleted_too(objs[trace[-1][1]])
                 except Exception as e2: det['classification_error'] = repr(e2)
@@ -942,6 +968,10 @@ def explore(ctx, strict, nhist):
 STRICT_DELETE_KEY = 'strict-schema:DELETE-refused:delete-order-relies-on-ON-DELETE'
 # Pony's OWN schema: the rows reference each other; Entity._delete_ queued the cascade target before the object that still
 # refers to it through a Required attribute (plain FK); same defect as C15's commit-failed:required-reference-inside-cascade-closure
+# Pony's OWN schema: a pending UPDATE (unlinking a row from an object that is being deleted) is emitted after a DELETE whose
+# ON DELETE CASCADE / SET NULL action already changed that row in the database (cascade cycle among the deleted rows: the
+# root is queued last, the backend cascades to it from the first DELETE); the UPDATE then fails its optimistic check
+PREEMPTED_UPDATE_KEY = 'pony-schema:OptimisticCheckError:pending-UPDATE-preempted-by-ON-DELETE-action-of-an-earlier-DELETE'
 CYCLE_DELETE_KEY = 'pony-schema:DELETE-refused:reference-cycle-between-deleted-rows:cascade-target-before-its-required-referrer'
 
 def report(ctx, spec, hist, strict, what, detail, shrunk=False):
@@ -961,13 +991,20 @@ def report(ctx, spec, hist, strict, what, detail, shrunk=False):
         if refused_delete and cls.get('strict_family') is True and not try_history(ctx, spec, hist, False):
             key = STRICT_DELETE_KEY
             ctx.count('strict:delete-refused')
+        elif refused_delete and cls.get('all_deleted') is True and cls.get('all_in_cycle') is True and \
+                any(p[0] == what for p in try_history(ctx, spec, hist, False)):
+            key = CYCLE_DELETE_KEY        # Pony's own schema refuses the same history for the same reason
+            ctx.count('strict:delete-refused:same-as-pony-schema-finding')
     elif refused_delete and cls.get('all_deleted') is True and cls.get('all_in_cycle') is True:
         # Pony's own schema refuses the DELETE: only when the blocking rows are deleted by the same flush AND reference
         # each other with the refused row (no order of plain DELETEs exists; the backend's ON DELETE action on one edge of the
         # cycle would make the opposite order work)
         key = CYCLE_DELETE_KEY
         ctx.count('pony-schema:delete-refused:reference-cycle')
-    if key not in (STRICT_DELETE_KEY, CYCLE_DELETE_KEY) and not shrunk:
+    if not strict and what.startswith('flush raised OptimisticCheckError') and isinstance(det, dict) and det.get('preempted_by_on_delete') is True:
+        key = PREEMPTED_UPDATE_KEY
+        ctx.count('pony-schema:update-preempted-by-on-delete')
+    if key not in (STRICT_DELETE_KEY, CYCLE_DELETE_KEY, PREEMPTED_UPDATE_KEY) and not shrunk:
         spec2, hist2 = shrink(ctx, spec, hist, strict, what)
         return report(ctx, spec2, hist2, strict, what, detail, shrunk=True)
     if strict:
